@@ -61,14 +61,21 @@ Qed.
 
 (** * per-operation specifications (RFC 7047 5.2) *)
 
-(** select: exactly the rows satisfying the conditions *)
-Theorem select_spec S d0 d t wh cols T :
-  find_table S t = Some T -> conds_valid T wh = true ->
-  exists rs, exec_op S d0 d (OSelect t wh cols) = (RRows rs, d) /\
-             (list_to_map rs : gmap sym (gmap sym value)) = filter_rows (get_tbl d t) wh.
+Lemma ltm_map_snd (f : gmap sym value -> gmap sym value) (l : list (sym * gmap sym value)) :
+  (list_to_map (map (fun ur => (ur.1, f ur.2)) l) : gmap sym (gmap sym value)) = f <$> list_to_map l.
 Proof.
-  intros HT Hv. unfold exec_op. rewrite HT, Hv. simpl. eexists. split; [reflexivity|].
-  unfold select_uuids. apply list_to_map_to_list.
+  induction l as [|[u r] l IH]; cbn [map list_to_map foldr fst snd]; [rewrite fmap_empty; reflexivity|].
+  rewrite fmap_insert. cbn. rewrite IH. reflexivity.
+Qed.
+
+(** select: exactly the rows satisfying the conditions, each reduced to the requested columns *)
+Theorem select_spec S d0 d t wh cols T :
+  find_table S t = Some T -> conds_valid T wh = true -> cols_valid T cols = true ->
+  exists rs, exec_op S d0 d (OSelect t wh cols) = (RRows rs, d) /\
+             (list_to_map rs : gmap sym (gmap sym value)) = select_row cols <$> filter_rows (get_tbl d t) wh.
+Proof.
+  intros HT Hv Hc. unfold exec_op. rewrite HT, Hv, Hc. simpl. eexists. split; [reflexivity|].
+  unfold select_uuids, select_project. rewrite ltm_map_snd, list_to_map_to_list. reflexivity.
 Qed.
 
 (** update / mutate / delete: the matching rows are transformed, nothing else
